@@ -28,6 +28,7 @@ const uint64_t FAR = 9ull * 1000 * 1000;       // deadlines >= now+9s count as "
 const uint64_t NEVER = ~0ull;
 const uint32_t FAIR_N = 4000;
 const uint32_t TIME_N = 1500;
+const uint64_t TDEV_NEAR = 50000;
 
 struct Watch { uintptr_t pc, addr; uint64_t val; uint8_t size, count; uint32_t seen; };
 
@@ -138,9 +139,10 @@ void schedule(Th* me, const char* what, uintptr_t addr, bool exiting = false) {
             pmc_violation("deadlock", "on_deadlock handler returned: %s", buf);
         }
         if (time_dev) {
+            // only deadlines in the near future are candidates: harnesses use second-long waits as stand-ins for "forever"
             uint64_t d = NEVER;
-            for (int i = 0; i < NT; i++) { Th* t = &TH[i]; if ((t->wait == W_IDLE || t->wait == W_SLEEP || t->wait == W_COND) && t->deadline > vnow && t->deadline - vnow < FAR && t->deadline < d) d = t->deadline; }
-            for (int i = 0; i < ndeadlines;) { if (deadlines[i] <= vnow) { deadlines[i] = deadlines[--ndeadlines]; continue; } if (deadlines[i] < d) d = deadlines[i]; i++; }
+            for (int i = 0; i < NT; i++) { Th* t = &TH[i]; if ((t->wait == W_IDLE || t->wait == W_SLEEP || t->wait == W_COND) && t->deadline > vnow && t->deadline - vnow < TDEV_NEAR && t->deadline < d) d = t->deadline; }
+            for (int i = 0; i < ndeadlines;) { if (deadlines[i] <= vnow) { deadlines[i] = deadlines[--ndeadlines]; continue; } if (deadlines[i] - vnow < TDEV_NEAR && deadlines[i] < d) d = deadlines[i]; i++; }
             if (d != NEVER && pmc_choose(2, PMC_TIME, 1, "time: next deadline passes now")) { set_now(d); continue; }
         }
         int idx = 0;
